@@ -175,3 +175,58 @@ def _make_views(prop: str, rid: str):
 rule("C03")(_make_views("C03", "R03.12"))
 rule("C11")(_make_views("C11", "R11.10"))
 rule("C15")(_make_views("C15", "R15.8"))
+
+
+# ------------------------------------------------------------------------------------------------ parameters never read
+
+# parameters that are legitimately ignored: the function is a callback whose signature is fixed by its consumer, or the parameter
+# selects an overload / documents intent.  (function, parameter) -> reason
+PARAMS_REVIEWED = {
+    ("ParseResult.convert_error", "target_type"): "only carries the static type for the checker (generic conversion)",
+    ("_LocalInstant.__ctor", "deliberately_invalid"): "overload selector for the before-min / after-max sentinels",
+    ("_ResourceManager.get_string", "culture"): "resources exist for the invariant culture only",
+    ("__ResolversMeta.return_earlier", "later"): "ambiguity resolver signature (earlier, later)",
+    ("__ResolversMeta.return_later", "earlier"): "ambiguity resolver signature (earlier, later)",
+}
+CALLBACK_PARAM_NAMES = {"value", "bucket", "cursor", "local_time", "pattern", "time", "sb"}
+
+
+def unread_parameters(ctx: Ctx, files: set[str] | None):
+    M = ctx.M
+    for f in sorted(set(M.func_of_node.values()), key=lambda x: x.qual):
+        if isinstance(f.node, ast.Lambda) or "_compatibility" in f.mod.rel or (files is not None and f.mod.rel not in files):
+            continue
+        body = [s for s in f.body if not (isinstance(s, ast.Expr) and isinstance(s.value, ast.Constant))]
+        if not body or (len(body) == 1 and isinstance(body[0], (ast.Raise, ast.Pass))):
+            continue
+        if f.decorators & {"overload", "abc.abstractmethod", "abstractmethod", "typing.overload"}:
+            continue
+        if f.cls is not None and (any(f.name in k.methods for k in M.mro(f.cls)[1:]) or M.overrides(f)):
+            continue  # the signature belongs to an interface / base class
+        loads = {x.id for x in ast.walk(f.node) if isinstance(x, ast.Name) and isinstance(x.ctx, ast.Load)}
+        for p in f.value_params:
+            if p.arg.startswith("_"):
+                continue
+            unread = p.arg not in loads
+            reviewed = (f.qual, p.arg) in PARAMS_REVIEWED or (f.parent is not None and p.arg in CALLBACK_PARAM_NAMES) or (f.cls is None and f.parent is None and p.arg == "pattern" and f.name.lstrip("_").startswith("handle_"))
+            yield f, p.arg, unread and not reviewed
+
+
+def _make_params(prop: str):
+    def r_params(ctx: Ctx) -> RuleResult:
+        rr = RuleResult(f"R{prop[1:]}.params", "every parameter of a function is read by it (parse/format callbacks and pattern-character handlers with consumer-fixed signatures excepted)", min_instances=5)
+        for f, name, bad in unread_parameters(ctx, anchor_files(prop)):
+            rr.inst(nontrivial=False)
+            if bad:
+                rr.fail(f.qual, f"parameter `{name}` is never read: callers pass a value that has no effect on the result", ctx.loc(f))
+            else:
+                rr.ok()
+        return rr
+
+    r_params.__name__ = f"r{prop[1:]}_params_unread"
+    return r_params
+
+
+for _i in range(1, 21):
+    _p = f"C{_i:02d}"
+    rule(_p)(_make_params(_p))
